@@ -209,6 +209,21 @@ func (s *State) define(hint, sort, term string) string {
 	return c
 }
 
+// defineCached is define with sharing: the same term on the same path gets the same name.
+func (s *State) defineCached(hint, sort, term string) string {
+	key := "(assert (= "
+	for i := len(s.cmds) - 1; i >= 0 && i > len(s.cmds)-4000; i-- {
+		c := s.cmds[i]
+		if strings.HasPrefix(c, key) && strings.HasSuffix(c, " "+term+"))") {
+			name := c[len(key) : len(c)-len(term)-3]
+			if !strings.ContainsAny(name, " ()") || (strings.HasPrefix(name, "|") && strings.Count(name, "|") == 2) {
+				return name
+			}
+		}
+	}
+	return s.define(hint, sort, term)
+}
+
 func (s *State) freshVal(hint string, t types.Type) Val {
 	sh := shapeOf(t)
 	v := Val{T: t}
@@ -323,12 +338,13 @@ type heapLeaf struct {
 	Sort string // array sort Int -> leaf sort
 	Elem string
 	Ref  bool
+	MapValRef string // for map value heaps whose values are references: the key sort
 }
 
 func heapLeaves(base string, t types.Type) []heapLeaf {
 	var out []heapLeaf
 	for _, l := range shapeOf(t) {
-		out = append(out, heapLeaf{base + l.Name, arrSort(sInt, l.Sort), l.Sort, l.Ref})
+		out = append(out, heapLeaf{Name: base + l.Name, Sort: arrSort(sInt, l.Sort), Elem: l.Sort, Ref: l.Ref})
 	}
 	return out
 }
@@ -363,10 +379,16 @@ func (s *State) closureFact(h string, hl heapLeaf, alloc string) {
 		s.assume(fmt.Sprintf("(forall ((r!c Int)) (! (and (<= 0 (select %s r!c)) (<= (select %s r!c) %s)) :pattern ((select %s r!c))))", h, h, maxLen, h))
 		return
 	}
+	if alloc != "" && hl.MapValRef != "" {
+		s.assume(fmt.Sprintf("(forall ((r!c Int) (k!c %s)) (! (=> (< r!c %s) (and (<= 0 (select (select %s r!c) k!c)) (< (select (select %s r!c) k!c) %s))) :pattern ((select (select %s r!c) k!c))))",
+			hl.MapValRef, alloc, h, h, alloc, h))
+		return
+	}
 	if alloc == "" || !hl.Ref {
 		return
 	}
-	s.assume(fmt.Sprintf("(forall ((r!c Int)) (! (and (<= 0 (select %s r!c)) (< (select %s r!c) %s)) :pattern ((select %s r!c))))", h, h, alloc, h))
+	// only objects that exist (r < alloc) are constrained: fields of objects allocated later (e.g. by a callee) may point to newer objects
+	s.assume(fmt.Sprintf("(forall ((r!c Int)) (! (=> (< r!c %s) (and (<= 0 (select %s r!c)) (< (select %s r!c) %s))) :pattern ((select %s r!c))))", alloc, h, h, alloc, h))
 }
 
 // heapIn returns the heap term in a snapshot, falling back to the entry constant.
@@ -521,7 +543,7 @@ func (s *State) oblige(kind, name string, props []string, goal, where, specSrc s
 	if s.dead {
 		return
 	}
-	if kind == "post" || kind == "invariant-preserved" || kind == "invariant-entry" {
+	if kind == "post" || kind == "invariant-preserved" || kind == "invariant-entry" || kind == "step" {
 		if parts := splitGoal(goal); len(parts) > 1 && len(parts) <= 12 {
 			for i, p := range parts {
 				s.oblige1(kind, fmt.Sprintf("%s.%d", name, i+1), props, p, where, specSrc)
@@ -549,7 +571,7 @@ func (s *State) oblige1(kind, name string, props []string, goal, where, specSrc 
 	s.coll.obls = append(s.coll.obls, o)
 	// after asserting, the fact may be assumed on the rest of the path (only useful for checks in the middle of a path)
 	switch kind {
-	case "post", "invariant-preserved", "decreases":
+	case "post", "invariant-preserved", "decreases", "step":
 	default:
 		s.assume(goal)
 	}
